@@ -14,6 +14,14 @@
   `attr_ns`, `attr_ns_unmapped`, `attr_any`, `attr_any_ignores_star_mapping`, `attr_bare`,
   `attr_no_ns_support`.  The document-side prefix text is never read for a prefixed selector:
   `attr_prefix_text_irrelevant`.
+  `match_attribute_name` is a generator (since the repair of `[*|a op v]`, which only looked at
+  the first designated attribute): `matchAttributeValues` is the list of ALL yielded values and
+  every branch is ONE `List.filter` with the same predicate — `attr_ns_values`,
+  `attr_ns_unmapped_values`, `attr_any_values`, `attr_bare_values`, `attr_no_ns_support_values`;
+  `matchAttributeName` (the `find?` forms above) is its head (`attr_first_of_values`).  An
+  attribute selector holds when SOME designated attribute passes the value test:
+  `attr_value_test`, `attr_any_value_test`, `attr_ns_value_test`, and on the specification side
+  `attr_any_value_test_spec`, `attr_any_ne_spec`, `attr_any_presence_spec`.
 
   Places where the statement had to be sharper than the prose of the property:
     * `[a]` and `[|a]` compare the WHOLE key text of the attribute (`attr_bare`): a namespaced
@@ -25,6 +33,7 @@
       `key_text_matters_without_ns_support`).
 -/
 import SoupVerif.Lemmas.Names
+import SoupVerif.Spec.Css
 namespace SoupVerif
 namespace C12
 open Names
@@ -267,6 +276,168 @@ theorem attr_no_ns_support_prefix_irrelevant (c : Ctx) (e : Elem) (a p q : Str)
     matchAttributeName c e a p = matchAttributeName c e a q := by
   rw [attr_no_ns_support c e a p h, attr_no_ns_support c e a q h]
 
+/-! ### Every designated attribute (`match_attribute_name` is a generator)
+
+  Since the repair of `[*|a op v]`, `match_attribute_name` yields the value of EVERY attribute the
+  name test designates and `match_attributes` accepts when SOME yielded value passes the value
+  test.  Each branch is ONE `List.filter` with the same predicate as above; the theorems above are
+  the heads (`matchAttributeName_eq_head?`). -/
+
+/-- The former return value is the first yielded value. -/
+theorem attr_first_of_values (c : Ctx) (e : Elem) (a p : Str) :
+    matchAttributeName c e a p = (matchAttributeValues c e a p).head? :=
+  matchAttributeName_eq_head? c e a p
+
+theorem doc_prefix_irrelevant_attr_values (c : Ctx) (e : Elem) (a p : Str) (q : Option Str) :
+    matchAttributeValues c e a p = matchAttributeValues c { e with pfx := q } a p := rfl
+
+/-- `[ns|a]`, `ns ↦ u`: ALL the attributes in namespace `u` with local name `a`, document order. -/
+theorem attr_ns_values (c : Ctx) (e : Elem) (a p u : Str) (h : c.supportsNamespaces = true)
+    (hp : p ≠ []) (hs : p ≠ "*".toStr) (hm : c.nsGet p = some u) :
+    matchAttributeValues c e a p =
+      (e.attrs.filter (inNs c a u)).map (fun x => normalizeValue x.val) :=
+  mav_ns h e a p u hp hs hm
+
+/-- An unmapped prefix designates nothing. -/
+theorem attr_ns_unmapped_values (c : Ctx) (e : Elem) (a p : Str) (h : c.supportsNamespaces = true)
+    (hp : p ≠ []) (hs : p ≠ "*".toStr) (hm : c.nsGet p = none) :
+    matchAttributeValues c e a p = [] :=
+  mav_unmapped h e a p hp hs hm
+
+/-- `[*|a]` designates ALL the attributes with local name `a` in any namespace, and the attribute
+    `a` in no namespace — whatever the prefix map says about `*`.  (Before the repair only the
+    first of them was looked at: this statement was false of the code.) -/
+theorem attr_any_values (c : Ctx) (e : Elem) (a : Str) (h : c.supportsNamespaces = true) :
+    matchAttributeValues c e a "*".toStr =
+      (e.attrs.filter (inAnyNs c a)).map (fun x => normalizeValue x.val) :=
+  mav_star h e a
+
+/-- Changing the prefix map never changes `[*|a]`. -/
+theorem attr_any_values_map_independent (c : Ctx) (e : Elem) (a : Str) (m : List (Str × Str))
+    (h : c.supportsNamespaces = true) :
+    matchAttributeValues { c with namespaces := m } e a "*".toStr =
+      matchAttributeValues c e a "*".toStr := by
+  have h1 := attr_any_values { c with namespaces := m } e a h
+  rw [h1, attr_any_values c e a h]
+  rfl
+
+/-- `[a]` and `[|a]`: the attributes whose FULL key text equals `a` (one, when keys are distinct). -/
+theorem attr_bare_values (c : Ctx) (e : Elem) (a : Str) (h : c.supportsNamespaces = true) :
+    matchAttributeValues c e a [] =
+      (e.attrs.filter (fun x => nameEq c a x.key)).map (fun x => normalizeValue x.val) :=
+  mav_bare h e a
+
+/-- HTML without namespaces: the prefix is ignored, the whole key is compared case-insensitively. -/
+theorem attr_no_ns_support_values (c : Ctx) (e : Elem) (a p : Str)
+    (h : c.supportsNamespaces = false) :
+    matchAttributeValues c e a p =
+      (e.attrs.filter (fun x => lower a == lower x.key)).map (fun x => normalizeValue x.val) :=
+  mav_no_ns h e a p
+
+theorem attr_no_ns_support_prefix_irrelevant_values (c : Ctx) (e : Elem) (a p q : Str)
+    (h : c.supportsNamespaces = false) :
+    matchAttributeValues c e a p = matchAttributeValues c e a q := by
+  rw [attr_no_ns_support_values c e a p h, attr_no_ns_support_values c e a q h]
+
+/-- `attr_prefix_text_irrelevant` for every designated attribute. -/
+theorem attr_prefix_text_irrelevant_values (c : Ctx) (e : Elem) (as bs : List Attr) (a p u : Str)
+    (h : c.supportsNamespaces = true) (hp : p ≠ []) (hs : p ≠ "*".toStr) (hm : c.nsGet p = some u)
+    (hrel : Pairwise₂ SameNsNameVal as bs) :
+    matchAttributeValues c { e with attrs := as } a p =
+      matchAttributeValues c { e with attrs := bs } a p := by
+  rw [mav_ns h _ a p u hp hs hm, mav_ns h _ a p u hp hs hm]
+  refine filter_map_pairwise₂ ?_ ?_ hrel
+  · rintro x y ⟨h1, h2, _⟩; simp [localNameEq, h1, h2]
+  · rintro x y ⟨_, _, h3⟩; simp [valOf, h3]
+
+/-- `attr_prefix_text_irrelevant_gen` for every designated attribute. -/
+theorem attr_prefix_text_irrelevant_gen_values (c : Ctx) (e : Elem) (as bs : List Attr) (a p : Str)
+    (h : c.supportsNamespaces = true) (hp : p ≠ [])
+    (hrel : Pairwise₂ SameUpToPrefixText as bs) :
+    matchAttributeValues c { e with attrs := as } a p =
+      matchAttributeValues c { e with attrs := bs } a p := by
+  by_cases hs : p = "*".toStr
+  · subst hs
+    rw [mav_star h, mav_star h]
+    refine filter_map_pairwise₂ ?_ ?_ hrel
+    · rintro x y ⟨h1, h2, _, h4⟩
+      cases hk : x.kns with
+      | none => simp [← h1, hk, h4 hk]
+      | some kn => simp [← h1, hk, localNameEq, h2]
+    · rintro x y ⟨_, _, h3, _⟩; simp [valOf, h3]
+  · cases hm : c.nsGet p with
+    | none => rw [mav_unmapped h _ a p hp hs hm, mav_unmapped h _ a p hp hs hm]
+    | some u =>
+      refine attr_prefix_text_irrelevant_values c e as bs a p u h hp hs hm ?_
+      clear hm
+      induction hrel with
+      | nil => exact .nil
+      | cons hab _ ih => exact .cons ⟨hab.1, hab.2.1, hab.2.2.1⟩ ih
+
+/-- The pattern `match_attributes` uses for one attribute selector. -/
+def patternOf (c : Ctx) (s : AttrSel) : Option Rx :=
+  if c.isXml && s.xmlTypePattern.isSome then s.xmlTypePattern else s.pattern
+
+/-- The value test of `match_attributes` on one value. -/
+def passes (c : Ctx) (s : AttrSel) (v : NVal) : Bool :=
+  match patternOf c s with
+  | none => true
+  | some r => Rx.isMatch c.env r (nvalJoin v)
+
+/-- One attribute selector: some designated attribute passes the value test. -/
+theorem attr_value_test (c : Ctx) (e : Elem) (s : AttrSel) :
+    matchAttributes c e [s] = (matchAttributeValues c e s.attrName s.pfx).any (passes c s) := by
+  simp only [matchAttributes, List.all_cons, List.all_nil, Bool.and_true]
+  rfl
+
+/-- `[*|a op v]` holds iff SOME attribute with local name `a` in any namespace, or named `a` in no
+    namespace, has a value that satisfies the test (`[*|a]`, no pattern: iff there is one). -/
+theorem attr_any_value_test (c : Ctx) (e : Elem) (a : Str) (pat xt : Option Rx)
+    (h : c.supportsNamespaces = true) :
+    matchAttributes c e [⟨a, "*".toStr, pat, xt⟩] = true ↔
+      ∃ x ∈ e.attrs, inAnyNs c a x = true ∧
+        passes c ⟨a, "*".toStr, pat, xt⟩ (normalizeValue x.val) = true := by
+  rw [attr_value_test, attr_any_values c e a h]
+  simp only [List.any_map, List.any_filter, List.any_eq_true, Bool.and_eq_true, Function.comp]
+
+/-- `[ns|a op v]`, `ns ↦ u`: likewise over the attributes in namespace `u`. -/
+theorem attr_ns_value_test (c : Ctx) (e : Elem) (a p u : Str) (pat xt : Option Rx)
+    (h : c.supportsNamespaces = true) (hp : p ≠ []) (hs : p ≠ "*".toStr) (hm : c.nsGet p = some u) :
+    matchAttributes c e [⟨a, p, pat, xt⟩] = true ↔
+      ∃ x ∈ e.attrs, inNs c a u x = true ∧ passes c ⟨a, p, pat, xt⟩ (normalizeValue x.val) = true := by
+  rw [attr_value_test, attr_ns_values c e a p u h hp hs hm]
+  simp only [List.any_map, List.any_filter, List.any_eq_true, Bool.and_eq_true, Function.comp]
+
+/-- The specification side (`Css.satAttr`, value tests of `Spec/CssValue.lean`): `[*|a op v flag]`
+    for every operator but `!=` … -/
+theorem attr_any_value_test_spec (c : Ctx) (e : Elem) (a : Str) (t : Css.AttrTest)
+    (h : c.supportsNamespaces = true) (hop : (t.op == Css.AttrOp.ne) = false) :
+    Css.satAttr c e "*".toStr a (some t) = true ↔
+      ∃ x ∈ e.attrs, inAnyNs c a x = true ∧
+        Css.valTest t.op t.value (Css.caseInsensitive c a t.flag)
+          (nvalJoin (normalizeValue x.val)) = true := by
+  unfold Css.satAttr
+  simp only [hop, Bool.false_eq_true, if_false, attr_any_values c e a h, List.any_map,
+    List.any_filter, List.any_eq_true, Bool.and_eq_true, Function.comp]
+
+/-- … and `[*|a!=v]` is `:not([*|a=v])`: NO such attribute has the value `v`. -/
+theorem attr_any_ne_spec (c : Ctx) (e : Elem) (a : Str) (t : Css.AttrTest)
+    (h : c.supportsNamespaces = true) (hop : (t.op == Css.AttrOp.ne) = true) :
+    Css.satAttr c e "*".toStr a (some t) = true ↔
+      ¬ ∃ x ∈ e.attrs, inAnyNs c a x = true ∧
+        Css.valTest t.op t.value (Css.caseInsensitive c a t.flag)
+          (nvalJoin (normalizeValue x.val)) = true := by
+  unfold Css.satAttr
+  simp only [hop, if_true, attr_any_values c e a h, List.any_map, List.any_filter,
+    Bool.not_eq_true', ← Bool.not_eq_true, List.any_eq_true, Bool.and_eq_true, Function.comp]
+
+/-- `[*|a]`: there is such an attribute. -/
+theorem attr_any_presence_spec (c : Ctx) (e : Elem) (a : Str) (h : c.supportsNamespaces = true) :
+    Css.satAttr c e "*".toStr a none = true ↔ ∃ x ∈ e.attrs, inAnyNs c a x = true := by
+  unfold Css.satAttr
+  simp only [attr_any_values c e a h, List.any_map, List.any_filter, List.any_eq_true,
+    Bool.and_eq_true, Function.comp, and_true]
+
 /-! ### Non-vacuity and counterexamples (concrete contexts) -/
 
 def u1 : Str := "u1".toStr
@@ -314,6 +485,16 @@ example : matchAttributeName cxml (circle none none [xhref "x:href" u1, plainHre
     = some (.str "v".toStr) := by decide
 example : matchAttributeName cxml (circle none none [plainHref]) "href".toStr "*".toStr
     = some (.str "w".toStr) := by decide
+-- `[*|href="v"]` / `[*|href="w"]`: BOTH attributes are designated (before the repair of
+-- `match_attribute_name` only the first, `x:href`, was looked at and `[*|href="w"]` failed)
+example : matchAttributeValues cxml (circle none none [xhref "x:href" u1, plainHref]) "href".toStr "*".toStr
+    = [.str "v".toStr, .str "w".toStr] := by decide
+example : matchAttributes cxml (circle none none [xhref "x:href" u1, plainHref])
+    [⟨"href".toStr, "*".toStr, some (.seq [.lit 119 false, .eos]), none⟩] = true := by decide
+example : matchAttributes cxml (circle none none [xhref "x:href" u1, plainHref])
+    [⟨"href".toStr, "*".toStr, some (.seq [.lit 118 false, .eos]), none⟩] = true := by decide
+example : matchAttributes cxml (circle none none [xhref "x:href" u1, plainHref])
+    [⟨"href".toStr, "*".toStr, some (.seq [.lit 122 false, .eos]), none⟩] = false := by decide
 -- `[href]` compares the whole key: it does not see `x:href`, `[x\:href]` does
 example : matchAttributeName cxml (circle none none [xhref "x:href" u1]) "href".toStr [] = none := by decide
 example : matchAttributeName cxml (circle none none [xhref "x:href" u1]) "x:href".toStr []
